@@ -414,8 +414,8 @@ the share is updated at tick 1, the transition is refused at ticks 1 and 2 and t
 guard share is set — the update still counts. -/
 example :
     let nd : NeedSrc := ⟨.update, false, 0, .absent, ""⟩
-    let p : Program := [⟨"A", none, [], [], [], [], [⟨.named "B", [nd]⟩]⟩,
-                        ⟨"B", none, [⟨false, 1, "value"⟩], [], [], [], []⟩]
+    let p : Program := [⟨"A", none, [], [], [], [], [], [⟨.named "B", [nd]⟩]⟩,
+                        ⟨"B", none, [⟨false, 1, "value"⟩], [], [], [], [], []⟩]
     let put0 : Write := .put 0 [("value", .int 1)]
     let put1 : Write := .put 1 [("value", .bool true)]
     (resolve p).toOption.map (fun r =>
@@ -430,14 +430,66 @@ while the framer is shuttling between `A` and `B`.  Entering and leaving the inn
 `O`'s mark (set on entry to `O` at tick 0), so at tick 3 the update counts and the framer goes to `Z`. -/
 example :
     let nd : NeedSrc := ⟨.update, false, 0, .named "O", ""⟩
-    let p : Program := [⟨"O", none, [], [], [], [], [⟨.named "Z", [nd]⟩]⟩,
-                        ⟨"A", some "O", [], [], [], [], [⟨.named "B", []⟩]⟩,
-                        ⟨"B", some "O", [], [], [], [], [⟨.named "A", []⟩]⟩,
-                        ⟨"Z", none, [], [], [], [], []⟩]
+    let p : Program := [⟨"O", none, [], [], [], [], [], [⟨.named "Z", [nd]⟩]⟩,
+                        ⟨"A", some "O", [], [], [], [], [], [⟨.named "B", []⟩]⟩,
+                        ⟨"B", some "O", [], [], [], [], [], [⟨.named "A", []⟩]⟩,
+                        ⟨"Z", none, [], [], [], [], [], []⟩]
     let put0 : Write := .put 0 [("value", .int 1)]
     (resolve p).toOption.map (fun r =>
       (run r [[("value", .int 0)]] [([], []), ([], []), ([], [put0]), ([], []), ([], [])]).2.1)
       = some [(0, true), (2, true), (1, true), (3, true), (3, false)] := by
+  decide
+
+
+/-! ### marker needs used as entry needs (`let me if share is updated …`) -/
+
+/-- **An entry need never resets its mark by being evaluated or by a transition being taken**: the only
+transit (tract) markers a taken transition runs are those of the transition's OWN needs — the tract
+marker `NeedMarker._resolve` makes for an entry need stays on the need and is never collected — and the
+entry markers it runs are the enact markers of the entered frames. -/
+theorem C20_entry_need_has_no_tract (r : Resolved) (actives : List Nat) (t : Trans) (m : MarkRef)
+    (h : Act.marker true m ∈ fireActs r actives t) : ∃ n ∈ t.needs, n.ref = m := by
+  unfold fireActs at h
+  simp only [List.mem_append, List.mem_map, List.mem_flatMap] at h
+  rcases h with (⟨n, hn, he⟩ | ⟨j, _, hj⟩) | ⟨j, _, he⟩
+  · injection he with _ h2; exact ⟨n, hn, h2⟩
+  · simp [exitActs] at hj
+  · simp only [enterActs, List.mem_append, List.mem_map] at he
+    rcases he with ⟨m', _, e⟩ | ⟨w, _, e⟩
+    · injection e with h1 _; cases h1
+    · cases e
+
+/-- an entry need without an `in frame` clause requests no enact marker at all: its mark is only ever
+set through other needs that share the key; alone, it stays unset and "before the mark is first set any
+update counts" (`C20_updated_before_first_mark`) -/
+theorem C20_entry_need_without_clause_never_arms (names : List String) (home : Nat) (n : NeedSrc)
+    (hc : n.clause = .absent) (i : Nat) (m : MarkRef) : ¬ Req names home n i m := by
+  intro h; exact h.1 hc
+
+/-- **A refused entry leaves the mark as armed.**  When the entry needs of a frame to be entered fail
+(marker needs included), the transition is not taken (`C20_refused_transition_skipped`), and a tick
+without a taken transition runs no marker act (`C20_refused_transition_keeps_mark`): evaluating
+`let me if share is updated` changes nothing.  Here: `enterOk` is exactly "every frame to enter has all
+its field needs and all its marker needs true". -/
+theorem C20_entry_needs_all_hold (w : World) (frames : List Frame) (enters : List Nat)
+    (h : enterOk w frames enters = true) (j : Nat) (hj : j ∈ enters) (f : Frame) (hf : frames[j]? = some f) :
+    (∀ g ∈ f.guards, evalGuard w g = true) ∧ (∀ n ∈ f.gneeds, evalNeed w n = true) := by
+  simp only [enterOk, Bool.and_eq_true, List.all_eq_true] at h
+  have := h.2 j hj
+  simp only [hf, Option.map_some, Option.getD_some] at this
+  exact ⟨fun g hg => this.1 g hg, fun n hn => this.2 n hn⟩
+
+/-- non-vacuity: frame B has `let me if .s0 is updated in frame A` (armed on every entry of A) and A has
+`go B`.  The share is updated at tick 2: the unconditional `go B` is refused at ticks 1 and 2 (no update
+since A was entered at tick 0) and taken at tick 3; nothing is reset by the refused attempts. -/
+example :
+    let g : NeedSrc := ⟨.update, false, 0, .named "A", ""⟩
+    let p : Program := [⟨"A", none, [], [], [], [], [], [⟨.named "B", []⟩]⟩,
+                        ⟨"B", none, [], [g], [], [], [], []⟩]
+    let put0 : Write := .put 0 [("value", .int 1)]
+    (resolve p).toOption.map (fun r =>
+      ((run r [[("value", .int 0)]] [([], []), ([], []), ([], [put0]), ([], []), ([], [])]).2.1, r.enacts))
+      = some ([(0, true), (0, false), (0, false), (1, true), (1, false)], [[⟨.update, 0, "A"⟩], []]) := by
   decide
 
 /-! ### nested frames: which marks a taken transition sets -/
@@ -536,10 +588,12 @@ theorem C20_exen_common_prefix (nears fars : List Nat) (far : Nat) :
 /-- **The mark is set on entry to the named frame**: after a successful resolve the enact markers of
 frame `i` are exactly the markers requested by the needs that carry an `in frame` clause naming `i`
 (`Req`: own frame for `in frame` / `in frame me`, else the named one; key = `by` marker if given,
-else the named frame's name), each once. -/
+else the named frame's name), each once.  `needsOfFrame f` = the marker needs written in frame `f`: its
+entry needs (`let me if …`) and the needs of its transitions — an entry need with an `in frame` clause
+arms its mark on entry to the named frame exactly like a transition need does. -/
 theorem C20_enact_placement (p : Program) (r : Resolved) (h : resolve p = .ok r) (i : Nat) (m : MarkRef) :
     (m ∈ r.enacts.getD i [] ↔
-      ∃ home f, p[home]? = some f ∧ ∃ t ∈ f.trans, ∃ n ∈ t.needs, Req (p.map (·.name)) home n i m) ∧
+      ∃ home f, p[home]? = some f ∧ ∃ n ∈ needsOfFrame f, Req (p.map (·.name)) home n i m) ∧
     (r.enacts.getD i []).Nodup := by
   unfold resolve at h
   simp only [bind, Except.bind] at h
@@ -565,7 +619,8 @@ tract markers run by `fireActs` are exactly these needs' marks.  Every such mark
 theorem C20_tract_placement (p : Program) (r : Resolved) (h : resolve p = .ok r) :
     r.frames.length = p.length ∧
     (∀ k f f', p[k]? = some f → r.frames[k]? = some f' → FrameOf (p.map (·.name)) k f f') ∧
-    (∀ f' ∈ r.frames, ∀ t' ∈ f'.trans, ∀ nd ∈ t'.needs, (nd.share, nd.key) ∈ r.keys) := by
+    (∀ f' ∈ r.frames, (∀ nd ∈ f'.gneeds, (nd.share, nd.key) ∈ r.keys) ∧
+      ∀ t' ∈ f'.trans, ∀ nd ∈ t'.needs, (nd.share, nd.key) ∈ r.keys) := by
   unfold resolve at h
   simp only [bind, Except.bind] at h
   cases h1 : resolveFrames (p.map (·.name)) 0 ⟨p.map (fun _ => []), []⟩ p with
@@ -604,8 +659,8 @@ the same share resolve to one Mark key; the `in frame B` clause of the first put
 into `B`, and a second identical request does not add another. -/
 example :
     let nd : NeedSrc := ⟨.update, false, 0, .named "B", "m1"⟩
-    let p : Program := [⟨"A", none, [], [], [], [], [⟨.named "B", [nd]⟩]⟩,
-                        ⟨"B", none, [], [], [], [], [⟨.named "A", [nd, { nd with clause := .absent }]⟩]⟩]
+    let p : Program := [⟨"A", none, [], [], [], [], [], [⟨.named "B", [nd]⟩]⟩,
+                        ⟨"B", none, [], [], [], [], [], [⟨.named "A", [nd, { nd with clause := .absent }]⟩]⟩]
     (resolve p).toOption.map (fun r => (r.enacts, r.keys))
       = some ([[], [⟨.update, 0, "m1"⟩]], [(0, "m1")]) := by
   decide
